@@ -222,8 +222,8 @@ def run(ctx):
     small2 = [pool.add(c) for c in gen.enum_cats(atoms, ['/', '\\', '|'], 2)]
     pairs = [(i, j) for i in small2 for j in small2]
     if quick:
-        rng.shuffle(pairs)      # quick: all 980100 pairs unless the machine is too loaded to get through them in 40 s
-    stream('small<=2', pairs, 1500 if quick else 6000, 300 if quick else 1500, budget=40 if quick else None)
+        rng.shuffle(pairs)      # quick: all 980100 pairs unless the machine is too loaded to get through them in 25 s
+    stream('small<=2', pairs, 1200 if quick else 6000, 250 if quick else 1500, budget=25 if quick else None)
     if not quick:
         def rand_small(n):
             if n == 1:
@@ -359,7 +359,7 @@ def run(ctx):
     return ctx.finish(
         level='proof',
         rule='cases = ordered category pairs on which depccg.grammar.en.apply_binary_rules is run: pairs of the shipped inventories targets.en / '
-             'targets.en_rebank (quick: 24000 random pairs, all firing ones kept; thorough: all pairs), all pairs of the 990 categories of <= 2 atoms (quick: in random order, as many as 40 s allow - see stats pairs:small<=2) over '
+             'targets.en_rebank (quick: 24000 random pairs, all firing ones kept; thorough: all pairs), all pairs of the 990 categories of <= 2 atoms (quick: in random order, as many as 25 s allow - see stats pairs:small<=2) over '
              '{S,N,NP}x{none,X,nb,dcl,b} + {",",conj,LRB} with slashes / \\ | (thorough: + 800000 random pairs with a 3-atom member), instances of every schema '
              'built from inventory sub-categories with identical and feature-perturbed matched parts, rule closure (results paired with lexical categories), '
              'a malformed stream (feature triples, empty names) for the correspondence only, seen-rule sets and the unary table; non-trivial = at least one rule fires; '
